@@ -252,7 +252,12 @@ def main(argv=None) -> int:
         "violations": len(lines),
     }
     (VERIF / "evidence").mkdir(exist_ok=True)
-    (VERIF / "evidence" / f"{prop}.json").write_text(json.dumps(jsonable(ev), indent=1))
+    if str(REPO) == "/repo":
+        (VERIF / "evidence" / f"{prop}.json").write_text(json.dumps(jsonable(ev), indent=1))
+    else:
+        # a run against another tree (seeded changes, old commits) must not overwrite the evidence of /repo
+        (VERIF / "replays").mkdir(exist_ok=True)
+        (VERIF / "replays" / f"evidence-{prop}-other-repo.json").write_text(json.dumps(jsonable(ev), indent=1))
     for ln in log[-40:]:
         print("  " + ln)
     for i in ctx.issues[:10]:
